@@ -78,6 +78,14 @@ def run(prop: str, tier: str, replay: str = None) -> int:
             for line in f:
                 c = json.loads(line)
                 c.pop("order", None)
+                # every third case wraps its patches in a generated prologue/epilogue
+                # (caller-saved registers preserved, scratch registers, flags)
+                if len(cases) % 3 == 1 and c["shape"].get("isa", "x64") == "x64":
+                    for rq in c["reqs"]:
+                        if rq.get("patch", {}).get("kind"):
+                            rq["patch"]["cons"] = {"preserve_caller_saved_registers": True,
+                                                   "scratch_registers": 2, "clobbers_flags": True,
+                                                   "clobbers_registers": ["rcx", "rdx"]}
                 cases[c["id"]] = c
                 for p in range(PERMS[tier]):
                     d = dict(c)
